@@ -5,21 +5,32 @@
    monitors are evaluated on the observed log as well. *)
 From Coq Require Import List Bool NArith.
 Import ListNotations.
-From Setec Require Import Server.Backup Corr.Common.
+From Setec Require Import Base.SMap Server.KV Server.Backup Corr.Common.
 Open Scope N_scope.
 
 Inductive case :=
-| Sc (ws : list N)                                  (* instants of successful client writes *)
-     (fs : list N)                                  (* instants of write attempts whose save failed *)
+| Sc (evs : list dbev)                              (* the clients' mutating calls in time order: instant, "a save can
+                                                       succeed", call (put / activate / delete-version / delete) *)
      (rs : list N)                                  (* instants of client reads (list, get, info) *)
      (sc : list upl) (c : N)                        (* the store's script, the cancellation instant *)
      (ups : list obs_upload)                        (* requests the store received *)
      (bids : list N)                                (* per request: identifier of the body's bytes (exact comparison) *)
      (exit : option N)                              (* instant the task returned; None = it did not *)
-     (final_gen : N) (racing : N).                  (* WriteGen at the end; writes made by the store side *)
+     (final_gen : N) (racing : N)                   (* WriteGen at the end; writes made by the store side *)
+     (final_bid : N).                               (* identifier of the bytes of the live file at the end (0 = never uploaded) *)
 
-Definition timeline_of (ws fs rs : list N) (sc : list upl) (c : N) : timeline :=
-  {| writes := map (fun w => (w, true)) ws ++ map (fun w => (w, false)) (fs ++ rs); script := sc; cancel := c |}.
+(* which calls are writes is the MODEL's verdict: the store model is run over the calls *)
+Definition timeline_of (evs : list dbev) (rs : list N) (sc : list upl) (c : N) : timeline :=
+  {| writes := fst (classify [] evs) ++ map (fun w => (w, false)) rs; script := sc; cancel := c |}.
+
+Definition EPut (t : N) (ok : bool) (n : name) (v : N) : dbev := (t, ok, KPut n v).
+Definition EAct (t : N) (ok : bool) (n : name) (v : N) : dbev := (t, ok, KSetActive n v).
+Definition EDelV (t : N) (ok : bool) (n : name) (v : N) : dbev := (t, ok, KDelVer n v).
+Definition EDel (t : N) (ok : bool) (n : name) : dbev := (t, ok, KDel n).
+
+(* the bytes of the newest acknowledged upload *)
+Definition last_acked_bid (ups : list obs_upload) (bids : list N) : N :=
+  fold_left (fun acc (p : obs_upload * N) => if snd (fst p) then snd p else acc) (combine ups bids) 0.
 
 Definition U (d : N) (ok : bool) (race : N) : upl := {| u_dur := d; u_ok := ok; u_race := race |}.
 
@@ -30,18 +41,25 @@ Definition upload_beq (x y : obs_upload) : bool :=
 
 Definition check (cs : case) : bool :=
   match cs with
-  | Sc ws fs rs sc c ups bids ex fg racing =>
-      match backup_run (timeline_of ws fs rs sc c) with
+  | Sc evs rs sc c ups bids ex fg racing fbid =>
+      let tl := timeline_of evs rs sc c in
+      let okw := ok_writes tl in
+      match backup_run tl with
       | None => false
       | Some (its, x) =>
           list_beq upload_beq (map obs_of (attempts its)) ups
           && option_beq N.eqb (Some x) ex
-          && mon_first ups && mon_rate ups && mon_change 0 ups && mon_snapshot ws racing ups
+          && mon_first ups && mon_rate ups && mon_change 0 ups && mon_snapshot okw racing ups
           (* two consecutive acknowledged uploads never carry identical bytes *)
           && Nat.eqb (length bids) (length ups)
           && mon_bytes None (combine (map (fun u : obs_upload => snd u) ups) bids)
-          (* the generation moved exactly once per successful write: a failed save or a read
-             does not advance it *)
-          && (fg =? 1 + racing + N.of_nat (length ws))
+          (* the generation moved exactly once per write (as the store model classifies the calls:
+             a de-duplicated put, a no-op activate/delete, a failed save, a read do not advance it;
+             a delete-version, an activate, a delete do) *)
+          && (fg =? 1 + racing + N.of_nat (length okw))
+          (* caught up at the end: when the newest acknowledged backup covers the last generation,
+             it is byte-identical to the live file *)
+          && (if lastok 0 its =? 1 + n_races (attempts its) + N.of_nat (length okw)
+              then last_acked_bid ups bids =? fbid else true)
       end
   end.
